@@ -345,13 +345,16 @@ pub fn emit_case(rng: &mut Rng, bytes0: &[u8], out: &mut Vec<String>, native_fri
     // stack pointer inside the stack page (edges included)
     // the stack: usually one page in the usual place; sometimes two pages around an address where adding or subtracting the
     // operand size carries out of bit 15 / bit 31 (a stack pointer updated through a narrower register view shows there)
-    let (stack_base, stack_len): (u64, u64) = match rng.below(8) {
+    let (stack_base, stack_len): (u64, u64) = match rng.below(if matches!(class, Class::Stack | Class::CallRet) { 9 } else { 8 }) {
+        // the very bottom of the address space (the emulator maps it like any other page; never native)
+        8 => (0, 0x2000),
         0 => (0x6fff_f000, 0x2000),
         1 if code_base != 0xffff_e000 => (0xffff_f000, 0x2000),
         2 => (0x2_ffff_f000, 0x2000),
         _ => (STACK, 0x1000),
     };
     regs[4] = match rng.below(12) {
+        _ if stack_base == 0 && stack_len == 0x2000 => *rng.pick(&[0u64, 1, 2, 4, 6, 7, 8, 0xa, 0x10, 0x18]),
         0 => stack_base,
         1 => stack_base + stack_len - 8,
         2 => stack_base + stack_len,
@@ -366,7 +369,9 @@ pub fn emit_case(rng: &mut Rng, bytes0: &[u8], out: &mut Vec<String>, native_fri
         (f & 1) | ((f >> 1 & 1) << 2) | ((f >> 2 & 1) << 4) | ((f >> 3 & 1) << 6) | ((f >> 4 & 1) << 7) | ((f >> 5 & 1) << 11) | ((f >> 6 & 1) << 10)
     };
     let (fs, gs) = if ins.segment_prefix() == Register::FS || ins.segment_prefix() == Register::GS {
-        (0x2000_0000 + 0x1000 * rng.below(16), 0x3000_0000 + 0x1000 * rng.below(16))
+        // (page-aligned, or not even 16-byte aligned: alignment is a property of the linear address)
+        let odd = |rng: &mut Rng| if rng.chance(1, 3) { *rng.pick(&[8u64, 4, 0x18, 1, 0xff8]) } else { 0 };
+        (0x2000_0000 + 0x1000 * rng.below(16) + odd(rng), 0x3000_0000 + 0x1000 * rng.below(16) + odd(rng))
     } else {
         (0, 0)
     };
